@@ -164,6 +164,23 @@ def run(tier, seed):
         ctx.exhaustive = True
     else:
         triples = [tuple(ctx.rng.randrange(n) for _ in range(3)) for _ in range(40000)]
+    # long argument lists (4-12 operands): "an n-ary comparison is the conjunction of its adjacent pairs"; half of them monotone chains of exact
+    # operands (so that the predicates can hold), some of those with one adjacent pair swapped or repeated
+    exact_idx = [i for i in range(n) if ref_num.is_exact(g[i][1])]
+    longs = []
+    for _ in range(3000 if tier == "quick" else core.share(60000)):
+        k = ctx.rng.choice([4, 5, 6, 8, 12])
+        if ctx.rng.random() < 0.5:
+            t = sorted((ctx.rng.choice(exact_idx) for _ in range(k)), key=lambda i: g[i][1], reverse=ctx.rng.random() < 0.5)
+            c = ctx.rng.random()
+            if c < 0.3:
+                j = ctx.rng.randrange(k - 1); t[j], t[j + 1] = t[j + 1], t[j]
+            elif c < 0.5:
+                j = ctx.rng.randrange(k - 1); t[j + 1] = t[j]
+        else:
+            t = [ctx.rng.randrange(n) for _ in range(k)]
+        longs.append(tuple(t))
+    triples = list(triples) + longs
     ctx.observed["grid_size"] = n
     for leg in ["dev", "release"]:
         ts = pairs + (triples if (leg == "dev" or tier == "thorough") else triples[::5])
